@@ -179,6 +179,37 @@ theorem shared_user_array_unchanged (E : Ext)
     (runSched E c₀ σ).st.sh.user = c₀.st.sh.user := by
   rw [(serial_equivalence_private_arrays E hE c₀ hc σ 0).2.2]
 
+/-! ## objects handed to a caller are the caller's alone ("errors are heap objects owned by the caller's slot") -/
+
+/-- the one public function that MOVES an object from one parameter into another (ownership transfer, by design) -/
+def moveFns : List Nat := [nm! "xrl_propagate_error"]
+
+theorem handed_out_objects_fresh_decided :
+    Gen.escapes.all (fun r => r.retFresh && !r.constWrite && (r.outFresh || moveFns.contains r.name)) = true := by
+  decide +kernel
+
+/-- the rows of `Gen.escapes` are exactly the public entry points (mutators included), one each, in the order of the entry lists -/
+theorem escapes_cover_public : Gen.escapes.map (·.fn) = safeEntries ++ Gen.mutatorEntries ∧ Gen.escapes ≠ [] := by
+  decide +kernel
+
+/-- WHAT THE LIBRARY HANDS OUT IS FRESH AND UNSHARED.  For every public function (points-to summaries of tools/footprint.py over the
+working tree): the object it returns, every heap block reachable from it, and everything it stores through a parameter — the error
+object put into the caller's slot, out-parameters, entries added to an array — is memory allocated during that call, from which
+neither the memory of the caller's ARGUMENTS nor any library object can be reached; and it never writes through a parameter
+declared `const T *`.  So an error and its `xrl_error_copy`, a crystal and its `Crystal_MakeCopy`, two results of the same lookup
+share no storage: threads that each handle their own objects touch disjoint memory (the owner partition assumed by `race_free`).
+A copy that shares its text with the original through a reference count breaks this on two counts (`retFresh`, `constWrite`).
+Exception, named: `xrl_propagate_error` moves its second argument into the slot. -/
+theorem handed_out_objects_fresh : ∀ r ∈ Gen.escapes,
+    r.retFresh = true ∧ r.constWrite = false ∧ (r.outFresh = true ∨ r.name ∈ moveFns) := by
+  intro r hr
+  have h := (List.all_eq_true.mp handed_out_objects_fresh_decided) r hr
+  simp only [Bool.and_eq_true, Bool.or_eq_true, Bool.not_eq_true', List.contains_iff_mem] at h
+  exact ⟨h.1.1, h.1.2, h.2⟩
+
+/-- some of them do return pointers (the statement is not about an empty set of objects) -/
+theorem some_entries_return_objects : (Gen.escapes.filter (·.ptrRet)).length ≥ 10 := by decide +kernel
+
 /-! ## the parser family: `setlocale` -/
 
 /-- a thread that only asks for the numeric locale next to a thread that runs the extracted setlocale protocol -/
